@@ -29,12 +29,13 @@ func HashProgram(t *tape.Tape) string {
 }
 
 type hp struct {
-	t     *tape.Tape
-	id    int
-	objs  []string
-	maps  []string
-	funcs []string
-	nvar  int
+	t      *tape.Tape
+	id     int
+	objs   []string
+	maps   []string
+	funcs  []string
+	nvar   int
+	hasBad bool
 }
 
 func (g *hp) slot() string {
@@ -113,6 +114,16 @@ func (g *hp) name(p string) string {
 }
 
 func (g *hp) def() string {
+	if !g.hasBad && g.t.Chance(1, 4) {
+		// a value whose own `==` raises, and objects/maps holding it next to ordinary pairs:
+		// comparing them must not depend on which pair is compared first
+		g.hasBad = true
+		n1, n2, n3, n4 := g.name("o"), g.name("o"), g.name("m"), g.name("m")
+		g.objs = append(g.objs, n1, n2)
+		g.maps = append(g.maps, n3, n4)
+		return fmt.Sprintf("bad := {\"==\": m{|o| raise ValueErr.new(\"eqboom\")}}\n%s := {a: bad, b: 1, c: 2, d: 3, e: 4}\n%s := {a: bad, b: 9, c: 2, d: 8, e: 4}\n%s := %%{1: bad, 2: 1, 3: 2, \"k\": 3}\n%s := %%{1: bad, 2: 7, 3: 2, \"k\": 6}\n(%s == %s).p\n(%s == %s).p",
+			n1, n2, n3, n4, n1, n2, n3, n4)
+	}
 	switch g.t.Pick(4, 3, 3, 1, 1) {
 	case 0:
 		n := g.name("o")
